@@ -33,7 +33,7 @@ package ice
 // The loop task of addCandidate: a duplicate candidate's socket is closed here,
 // otherwise the candidate is started with exactly the offered socket and owns it.
 //@ func (*Agent).addCandidate$1
-//@   props C09
+//@   props C09 C18
 //@   requires cand != nil && candidateConn != nil && !candidateConn.gHeld
 //@   requires offered-candidate-was-never-started: baseOf(cand).closeCh == nil
 //@   loop 1 invariant socket-still-with-the-task: candidateConn.gClosed == old(candidateConn.gClosed) && !candidateConn.gHeld
@@ -41,6 +41,10 @@ package ice
 //@   site call Close#1 assert a-duplicate-closes-exactly-the-offered-socket: recv.payload == candidateConn.payload
 //@   site call start#1 assert candidate-is-started-with-the-offered-socket: recv == cand && arg0 == a && arg1 == candidateConn && candidateConn.gClosed == old(candidateConn.gClosed)
 //@   site call start#1 ghost after candidateConn.gHeld := true
+//@   ghostvar tracked bool = true
+//@   site call filterForLocationTracking#1 assert C18 asks-the-added-candidate: recv == cand
+//@   site call filterForLocationTracking#1 ghost tracked := result
+//@   site call EnqueueCandidate#1 assert C18 location-tracked-candidates-are-never-published: !tracked && arg1 == cand
 //@   ensures the-task-consumes-the-socket: (candidateConn.gHeld && candidateConn.gClosed == old(candidateConn.gClosed)) || (!candidateConn.gHeld && candidateConn.gClosed == old(candidateConn.gClosed) + 1)
 
 // One server-reflexive gathering attempt (per URL and local address).
